@@ -75,6 +75,31 @@ pub fn generate(profile: &str, seed: u64, n: usize, size: usize) -> Vec<History>
                 gen_inject(&mut rng, size, &mut out);
             }
         }
+        // extreme numeric values and very wide domains
+        "mapedge" => {
+            for _ in 0..n {
+                let h = gen_mapset_edge(&mut rng, Coll::MapTree, size);
+                out.push(as_list(&h, Coll::MapList));
+                out.push(h);
+                let h = gen_mapset_edge(&mut rng, Coll::SetTree, size);
+                out.push(as_list(&h, Coll::SetList));
+                out.push(h);
+            }
+        }
+        "keyedge" => {
+            for _ in 0..n {
+                let h = gen_key_edge(&mut rng, size);
+                let mut l = h.clone();
+                l.coll = Coll::KeyList;
+                out.push(l);
+                out.push(h);
+            }
+        }
+        "segwide" => {
+            for _ in 0..n {
+                out.push(gen_seg_wide(&mut rng, size));
+            }
+        }
         p => panic!("unknown profile {p}"),
     }
     out
@@ -135,9 +160,9 @@ fn gen_twins(rng: &mut Rng, size: usize, out: &mut Vec<History>) {
     let colls = [Coll::MapTree, Coll::MapList, Coll::SetTree, Coll::SetList, Coll::KeyTree, Coll::KeyList, Coll::Seg];
     let coll = *rng.pick(&colls);
     let (mut pre, mut suf) = match coll {
-        Coll::MapTree | Coll::MapList => (gen_mapset(rng, Coll::MapTree, psize), gen_mapset(rng, Coll::MapTree, size.max(2))),
-        Coll::SetTree | Coll::SetList => (gen_mapset(rng, Coll::SetTree, psize), gen_mapset(rng, Coll::SetTree, size.max(2))),
-        Coll::KeyTree | Coll::KeyList => (gen_key(rng, psize), gen_key(rng, size.max(2))),
+        Coll::MapTree | Coll::MapList => (if rng.chance(25) { gen_mapset_edge(rng, Coll::MapTree, psize) } else { gen_mapset(rng, Coll::MapTree, psize) }, gen_mapset(rng, Coll::MapTree, size.max(2))),
+        Coll::SetTree | Coll::SetList => (if rng.chance(25) { gen_mapset_edge(rng, Coll::SetTree, psize) } else { gen_mapset(rng, Coll::SetTree, psize) }, gen_mapset(rng, Coll::SetTree, size.max(2))),
+        Coll::KeyTree | Coll::KeyList => (if rng.chance(35) { gen_key_edge(rng, psize) } else { gen_key(rng, psize) }, gen_key(rng, size.max(2))),
         Coll::Seg => {
             let p = gen_seg(rng, psize);
             let mut s = gen_seg(rng, size.max(2));
@@ -448,6 +473,180 @@ fn gen_seg(rng: &mut Rng, size: usize) -> History {
             }
             let n = if rng.chance(30) { rng.range(0, 3) } else { -1 };
             if rng.chance(15) {
+                a = lo;
+                b = hi;
+            }
+            ops.push(Op::S(SOp::Query { a, b, t: clock, n }));
+        } else {
+            ops.push(Op::S(SOp::Clear));
+            if rng.chance(50) {
+                clock = 0;
+            }
+        }
+    }
+    History { coll: Coll::Seg, params: vec![lo, hi], ops, twin: None, inject: None }
+}
+
+// ---------------------------------------------------------------------------------------------
+// edge profiles: extreme numeric values (keys / times / expirations at the ends of i32, the
+// type's max_expiration() as an expiration), whole-domain and very wide segment domains
+
+const EDGE_KEYS: [i32; 9] = [i32::MIN, i32::MIN + 1, -2, -1, 0, 1, 2, i32::MAX - 1, i32::MAX];
+
+/// map / set history over the extreme keys of i32
+pub fn gen_mapset_edge(rng: &mut Rng, coll: Coll, size: usize) -> History {
+    let mut h = gen_mapset(rng, coll, size);
+    // remap the small key universe onto the extreme keys, order-preserving, so the history stays valid
+    let remap = |k: i32| -> i32 {
+        if k < 0 {
+            i32::MIN
+        } else {
+            let i = (k as usize).min(7);
+            EDGE_KEYS[i + 1]
+        }
+    };
+    // gen_mapset may have drawn a universe larger than 8 keys: regenerate until it is small
+    let mut tries = 0;
+    loop {
+        let max_key = h.ops.iter().filter_map(|o| match o { Op::M(MOp::Ins(k, _)) => Some(*k), _ => None }).max().unwrap_or(0);
+        if max_key <= 7 || tries > 50 {
+            break;
+        }
+        h = gen_mapset(rng, coll, size);
+        tries += 1;
+    }
+    for o in h.ops.iter_mut() {
+        if let Op::M(m) = o {
+            match m {
+                MOp::Ins(k, _) | MOp::Del(k) | MOp::Get(k) | MOp::First(k) | MOp::FirstBy(k) | MOp::FirstTh(k) | MOp::Write(k, _)
+                | MOp::DelIdx(k) | MOp::After(k) | MOp::Before(k) | MOp::WalkF(k) | MOp::WalkB(k) | MOp::Hold(k) => *k = remap(*k),
+                _ => {}
+            }
+        }
+    }
+    h
+}
+
+/// expiring-key history with times close to i32::MAX, expirations up to i32::MAX (= max_expiration)
+/// and keys at the ends of i32
+pub fn gen_key_edge(rng: &mut Rng, size: usize) -> History {
+    let nops = if size == 0 { 60 } else { size };
+    let mut reference: BTreeMap<i32, i32> = BTreeMap::new();
+    // the clock starts either very low or close to the top
+    let mut clock: i64 = if rng.chance(50) { i32::MIN as i64 + rng.range(0, 3) } else { i32::MAX as i64 - rng.range(4, 40) };
+    let top = i32::MAX as i64;
+    // a fifth of the histories store only never-expiring entries (expiration == max_expiration())
+    let all_max = rng.chance(20);
+    let mut ops = Vec::with_capacity(nops);
+    let mut next_val: i64 = 1;
+    for _ in 0..nops {
+        if rng.chance(20) && clock < top - 1 {
+            clock += rng.range(0, 2);
+        }
+        let t = clock as i32;
+        let r = rng.below(100);
+        if r < 45 {
+            let k = *rng.pick(&EDGE_KEYS);
+            if reference.get(&k).map_or(false, |&e| e as i64 > clock) {
+                ops.push(Op::K(KOp::LessEq(t, k)));
+                continue;
+            }
+            let e: i64 = match if all_max { 0 } else { rng.below(6) } {
+                0 => top,                       // max_expiration(): never expires before the clock ends
+                1 => clock,                     // never visible
+                2 => (clock + 1).min(top),
+                _ => (clock + rng.range(1, 30)).min(top),
+            };
+            reference.insert(k, e as i32);
+            ops.push(Op::K(KOp::Ins { k, e: e as i32, v: next_val, t }));
+            next_val += 1;
+        } else if r < 80 {
+            let k = *rng.pick(&EDGE_KEYS);
+            ops.push(Op::K(match rng.below(5) {
+                0 => KOp::Less(t, k),
+                1 => KOp::LessEq(t, k),
+                2 => KOp::By(t, k),
+                3 => KOp::Th(t, k),
+                _ => KOp::Get(t, k),
+            }));
+        } else if r < 84 {
+            ops.push(Op::K(KOp::IsEmpty));
+        } else if r < 87 {
+            reference.clear();
+            ops.push(Op::K(KOp::Clear));
+            if rng.chance(50) {
+                clock = i32::MIN as i64 + rng.range(0, 3);
+            }
+        } else {
+            let te = (clock + rng.range(0, 3)).min(top) as i32;
+            ops.push(Op::K(KOp::Export(te)));
+        }
+    }
+    History { coll: Coll::KeyTree, params: vec![*rng.pick(&CAPS)], ops, twin: None, inject: None }
+}
+
+const WIDE_DOMAINS: [(i64, i64); 8] = [
+    (-(1 << 61), (1 << 61) - 2),
+    (i64::MIN / 4, i64::MAX / 4),
+    (0, (1 << 40) + 1),
+    (-(1 << 33), (1 << 33)),
+    (i32::MIN as i64, i32::MAX as i64),
+    (-(1 << 50) - 17, (1 << 51) + 3),
+    (5, (1 << 62) - 100),
+    (-(1 << 62) + 1, -(1 << 61)),
+];
+
+/// segment-tree history on very wide domains, with whole-domain values (stored at the root place),
+/// many copies per bucket list and bursts that expire together
+pub fn gen_seg_wide(rng: &mut Rng, size: usize) -> History {
+    let nops = if size == 0 { 60 } else { size };
+    let (lo, hi) = *rng.pick(&WIDE_DOMAINS);
+    let len = (hi as i128 - lo as i128 + 1) as i128;
+    let mut p = 0u32;
+    while (1i128 << p) < len {
+        p += 1;
+    }
+    let bucket: i128 = 1i128 << (p.max(5) - 5);
+    let mut ops = Vec::with_capacity(nops);
+    let mut clock: i32 = 0;
+    let mut next_id: i64 = 1;
+    let point = |rng: &mut Rng| -> i64 {
+        let x: i128 = match rng.below(6) {
+            0 => lo as i128,
+            1 => hi as i128,
+            2 => lo as i128 + bucket * rng.range(0, 31) as i128 - rng.range(0, 1) as i128,
+            _ => lo as i128 + (rng.next() as i128 * 7919) % len,
+        };
+        x.clamp(lo as i128, hi as i128) as i64
+    };
+    for _ in 0..nops {
+        let r = rng.below(100);
+        let mut a = point(rng);
+        let mut b = if rng.chance(30) { a } else { point(rng) };
+        if a > b {
+            std::mem::swap(&mut a, &mut b);
+        }
+        if r < 55 {
+            if rng.chance(15) {
+                a = lo;
+                b = hi;
+            }
+            // bursts: several values with the same expiration in the same place
+            let e = clock + rng.range(-1, 4) as i32;
+            let copies = if rng.chance(25) { rng.range(3, 12) } else { 1 };
+            for _ in 0..copies {
+                ops.push(Op::S(SOp::Ins { a, b, id: next_id, e }));
+                next_id += 1;
+            }
+        } else if r < 96 {
+            if rng.chance(35) {
+                clock += rng.range(0, 3) as i32;
+            }
+            if rng.chance(10) {
+                clock += 1000;
+            }
+            let n = if rng.chance(30) { rng.range(0, 3) } else { -1 };
+            if rng.chance(25) {
                 a = lo;
                 b = hi;
             }
